@@ -148,6 +148,10 @@ func (l *lexer) run() {
 	for action := l.lexPipeline; action != nil; {
 		action = action()
 	}
+	if l.heredoc.exists() {
+		// the input ended before the line of a here-document operator did
+		l.error(l.pos, "syntax error: here-document delimited by EOF")
+	}
 }
 
 func (l *lexer) lexPipeline() action {
